@@ -130,6 +130,65 @@ def ordered_hash_objects(ctx: Context, hc, hf_var, gf, disp, kind, acc_name):
     return False, d
 
 
+def check_when(ctx: Context, rep, rule: str) -> None:
+    # ---------------------------------------------------------------------
+    rep.rule(
+        rule,
+        "every call that records digests passes algorithms derived from the "
+        "dataset's hash_checksum_algorithms (or its own `hashes` parameter); "
+        "a literal () is allowed only where the returned record is "
+        "discarded")
+    takers = {
+        f"{UT}:hash_checksums": "hashes",
+        f"{UT}:safe_update_file": "hashes",
+        "sedpack.io.shard_file_metadata:ShardsList.write_config": "hashes",
+        "sedpack.io.merge_shard_infos:merge_shard_infos": "hashes",
+    }
+    n = 0
+    for fn in ctx.repo.all_functions():
+        cfg = None
+        for call, anchor in calls_with_lambdas(fn):
+            for callee in ctx.internal_targets(fn, call):
+                if callee.fq not in takers:
+                    continue
+                n += 1
+                if cfg is None:
+                    cfg = ctx.cfg(fn)
+                    tf = TagFlow(
+                        cfg, {p: frozenset({"p:" + p}) for p in fn.params()},
+                        hook=lambda e, st, rec: frozenset({"configured"})
+                        if isinstance(e, ast.Attribute) and e.attr ==
+                        "hash_checksum_algorithms" else None)
+                e = passed_expr(call, callee, takers[callee.fq])
+                node = node_of(cfg, anchor)
+                tags = tf.tags(e, tf.at(node)) if e is not None and node \
+                    else frozenset()
+                if isinstance(e, ast.Tuple) and not e.elts:
+                    discarded = isinstance(parent(call), ast.Expr)
+                    rep.ob(rule, discarded, loc=fn.loc(call),
+                           where=fn.qualname,
+                           construct=short(call, 80),
+                           message="digests may be skipped (hashes=()) only "
+                           "when the returned record is thrown away")
+                else:
+                    ok = "configured" in tags or "p:hashes" in tags
+                    rep.ob(rule, ok, loc=fn.loc(call), where=fn.qualname,
+                           construct=f"{callee.name}(hashes={short(e)})",
+                           message="recorded digests use the configured "
+                           "algorithms, in the configured order")
+    rep.floor(rule, n, 8, "instances")
+    hs = ctx.fn("sedpack.io.metadata:DatasetStructure")  if False else None
+    ds = ctx.repo.cls("sedpack.io.metadata:DatasetStructure")
+    ann = ds.fields.get("hash_checksum_algorithms")
+    rep.ob(rule, ann is not None and "tuple[HashChecksumT" in
+           ast.unparse(ann), loc=f"{ds.module.relpath}:{ds.node.lineno}",
+           where="DatasetStructure",
+           construct=f"hash_checksum_algorithms: {short(ann)}",
+           message="the configuration is an ordered tuple of known names")
+    from sa.rules import shared
+    shared.check_no_memo(ctx, rep, "C16.memo")
+
+
 def run(ctx: Context, rep) -> None:
     rep.not_decided = (
         "the digest values themselves and the correctness of hashlib / "
@@ -374,62 +433,7 @@ def run(ctx: Context, rep) -> None:
                construct=f"updated objects = reported objects = {hf_var}",
                message="the objects fed are the objects reported")
 
-    # ---------------------------------------------------------------------
-    rep.rule(
-        "C16.when",
-        "every call that records digests passes algorithms derived from the "
-        "dataset's hash_checksum_algorithms (or its own `hashes` parameter); "
-        "a literal () is allowed only where the returned record is "
-        "discarded")
-    takers = {
-        f"{UT}:hash_checksums": "hashes",
-        f"{UT}:safe_update_file": "hashes",
-        "sedpack.io.shard_file_metadata:ShardsList.write_config": "hashes",
-        "sedpack.io.merge_shard_infos:merge_shard_infos": "hashes",
-    }
-    n = 0
-    for fn in ctx.repo.all_functions():
-        cfg = None
-        for call, anchor in calls_with_lambdas(fn):
-            for callee in ctx.internal_targets(fn, call):
-                if callee.fq not in takers:
-                    continue
-                n += 1
-                if cfg is None:
-                    cfg = ctx.cfg(fn)
-                    tf = TagFlow(
-                        cfg, {p: frozenset({"p:" + p}) for p in fn.params()},
-                        hook=lambda e, st, rec: frozenset({"configured"})
-                        if isinstance(e, ast.Attribute) and e.attr ==
-                        "hash_checksum_algorithms" else None)
-                e = passed_expr(call, callee, takers[callee.fq])
-                node = node_of(cfg, anchor)
-                tags = tf.tags(e, tf.at(node)) if e is not None and node \
-                    else frozenset()
-                if isinstance(e, ast.Tuple) and not e.elts:
-                    discarded = isinstance(parent(call), ast.Expr)
-                    rep.ob("C16.when", discarded, loc=fn.loc(call),
-                           where=fn.qualname,
-                           construct=short(call, 80),
-                           message="digests may be skipped (hashes=()) only "
-                           "when the returned record is thrown away")
-                else:
-                    ok = "configured" in tags or "p:hashes" in tags
-                    rep.ob("C16.when", ok, loc=fn.loc(call), where=fn.qualname,
-                           construct=f"{callee.name}(hashes={short(e)})",
-                           message="recorded digests use the configured "
-                           "algorithms, in the configured order")
-    rep.floor("C16.when", n, 8, "instances")
-    hs = ctx.fn("sedpack.io.metadata:DatasetStructure")  if False else None
-    ds = ctx.repo.cls("sedpack.io.metadata:DatasetStructure")
-    ann = ds.fields.get("hash_checksum_algorithms")
-    rep.ob("C16.when", ann is not None and "tuple[HashChecksumT" in
-           ast.unparse(ann), loc=f"{ds.module.relpath}:{ds.node.lineno}",
-           where="DatasetStructure",
-           construct=f"hash_checksum_algorithms: {short(ann)}",
-           message="the configuration is an ordered tuple of known names")
-    from sa.rules import shared
-    shared.check_no_memo(ctx, rep, "C16.memo")
+    check_when(ctx, rep, "C16.when")
     # a parent list records the digest of the child list as it is on disk
     # now: re-attached child records come from the child's own merge in this
     # call (same rule as C04.fresh)
